@@ -113,6 +113,38 @@ Definition run_handshaker (v : N) (l : local) (st : status) : hs_result :=
 Definition handshake (l : local) (versions : list N) (st : status) : hs_result :=
   run_handshaker (find_best_version accepted_inbound_versions versions) l st.
 
+(** * The mapping version -> handshaker (defaultVersionManager.GetVersionedHandshaker)
+
+    [run_handshaker] above runs, for version v, the check that the code's switch selects;
+    the selection itself is made explicit here so that it can be compared with the concrete
+    type the real GetVersionedHandshaker returns for every version value. *)
+Inductive handshaker_kind := HK030 | HK032 | HK033 | HK200.
+
+(** None = "not supported version". *)
+Definition versioned_handshaker (v : N) : option handshaker_kind :=
+  if v =? v200 then Some HK200
+  else if v =? v033 then Some HK033
+  else if v =? v032 then Some HK032
+  else if v =? v031 then Some HK030
+  else None.
+
+(** checkRemoteStatus of the handshaker type. *)
+Definition check_of_kind (k : handshaker_kind) : local -> status -> option hs_error :=
+  match k with
+  | HK030 => check_remote_status_v031
+  | HK032 => check_remote_status_v032
+  | HK033 => check_remote_status_v033
+  | HK200 => check_remote_status_v200
+  end.
+
+(** Code of the concrete Go type: 0 *v030.V030Handshaker, 1 *v030.V032Handshaker,
+    2 *v030.V033Handshaker, 3 *v200.V200Handshaker, 9 error. *)
+Definition kind_code (k : option handshaker_kind) : N :=
+  match k with Some HK030 => 0 | Some HK032 => 1 | Some HK033 => 2 | Some HK200 => 3 | None => 9 end.
+
+(** (version, observed type code). *)
+Definition kind_case_ok (c : N * N) : bool := kind_code (versioned_handshaker (fst c)) =? snd c.
+
 (** * Correspondence helpers *)
 
 (** Error class numbers used by the engines: 0 accepted, 1.. = constructors in order. *)
@@ -142,3 +174,14 @@ Definition hs_case_ok (c : N * local * status * N) : bool :=
     re-implementation over the real AcceptedInboundVersions list). *)
 Definition negotiate_case_ok (c : list N * N) : bool :=
   let '(req, chosen) := c in find_best_version accepted_inbound_versions req =? chosen.
+
+(** Whole connection at the version the real negotiation / the listener chose:
+    (version, local, status, observed class: 0 accepted, 1..7 refusal, 98 no handshaker). *)
+Definition conn_case_ok (c : N * local * status * N) : bool :=
+  let '(v, l, st, cls) := c in
+  match run_handshaker v l st with
+  | HsOk _ => cls =? 0
+  | HsRefused _ e => err_class (Some e) =? cls
+  | HsNoVersion => cls =? 98
+  end.
+
